@@ -225,6 +225,8 @@ type vfServer struct {
 	calls        int
 	setHdr       map[string][]string // metadata the handler sets as header
 	setTrail     map[string][]string // and as trailer
+	setHdr2      map[string][]string // a second SetHeader call
+	setTrail2    map[string][]string // a second SetTrailer call
 	ctxSeen      context.Context
 	sendHdrFirst bool // call grpc.SendHeader before returning
 	hook         func(ctx context.Context)
@@ -242,6 +244,12 @@ func (s *vfServer) unary(ctx context.Context, req *fakeMsg) (interface{}, error)
 	}
 	if s.setTrail != nil {
 		grpc.SetTrailer(ctx, s.setTrail)
+	}
+	if s.setHdr2 != nil {
+		grpc.SetHeader(ctx, s.setHdr2)
+	}
+	if s.setTrail2 != nil {
+		grpc.SetTrailer(ctx, s.setTrail2)
 	}
 	if s.sendHdrFirst {
 		grpc.SendHeader(ctx, metadata.MD{"x-sent": []string{"1"}})
